@@ -11,3 +11,7 @@ if [ ! -x "$V/bin/python" ] || ! "$V/bin/python" -c "import crosshair, z3, tpmst
   PIP_NO_INDEX=1 "$V/bin/pip" install -q --no-index --find-links /opt/veriftools/wheels crosshair-tool z3-solver jsonschema >/dev/null
   "$V/bin/python" -c "import crosshair, z3, tpmstream; print('venv ok', z3.get_version_string())"
 fi
+# validate the engine's models of C-level builtins against the builtins themselves (once per venv)
+if [ ! -f "$V/.models_validated" ] || [ engine/chsetup.py -nt "$V/.models_validated" ]; then
+  PYTHONHASHSEED=0 "$V/bin/python" -m engine.validate_models && touch "$V/.models_validated"
+fi
